@@ -1,5 +1,8 @@
 // C11: naive / Karatsuba / monomial multiplications and coefficient-wise operations are exact in Z_{2^32}[X]/(X^N+1)
 #include "vh.hpp"
+#include <thread>
+#include <atomic>
+#include <sched.h>
 VH_MAIN_GLOBALS
 using namespace vh;
 
@@ -222,6 +225,52 @@ static void test_linear(int N, int reps) {
     }
 }
 
+// operands shared between threads: the multiplications take their operands as const; T threads multiply the same two
+// polynomials into private results at the same time. Every result must still be exact and the operands unchanged (the same
+// binary runs under ThreadSanitizer, where any write to a shared operand is reported even if no result came out wrong).
+static void test_shared(int N, int T, int iters) {
+    static const char *fn[] = {"torusPolynomialMultNaive", "torusPolynomialMultKaratsuba", "torusPolynomialAddMulRKaratsuba", "torusPolynomialSubMulRKaratsuba", "torusPolynomialMulByXai", "torusPolynomialAddMulZ"};
+    for (int cls: {RANDOM, EXTREME}) {
+        TP b(N), r0(N); IP a(N);
+        fill(a.c(), N, cls); fill(b.c(), N, RANDOM); fill(r0.c(), N, RANDOM);
+        std::vector<U> prod; ref_negacyclic(prod, a.c(), b.c(), N);
+        const int ai = (int) rng.below(2 * N); const int32_t pz = rng.i32();
+        std::vector<std::vector<U>> want(6, std::vector<U>(N));
+        std::vector<U> mono; ref_mul_xai(mono, ai, b.c(), N);
+        for (int i = 0; i < N; i++) { want[0][i] = prod[i]; want[1][i] = prod[i]; want[2][i] = (U) r0.c()[i] + prod[i]; want[3][i] = (U) r0.c()[i] - prod[i]; want[4][i] = mono[i]; want[5][i] = (U) r0.c()[i] + (U) pz * (U) b.c()[i]; }
+        uint64_t ha = fnv1a(a.c(), 4 * N), hb = fnv1a(b.c(), 4 * N);
+        std::atomic<uint64_t> bad[6], runs[6]; for (int i = 0; i < 6; i++) { bad[i] = 0; runs[i] = 0; }
+        std::atomic<int> ready{0};
+        std::vector<std::thread> th;
+        for (int t = 0; t < T; t++) th.emplace_back([&, t] {
+            TP r(N);
+            ready++; while (ready.load() < T) sched_yield();
+            for (int it = 0; it < iters; it++) {
+                int op = (it + t) % 6;
+                if (op == 0 && N > 256 && it % 4) op = 1;     // the schoolbook product is slow
+                VH_OP("shared-operands:%s:N=%d", fn[op], N);
+                if (op >= 2 && op != 4) memcpy(r.c(), r0.c(), 4 * N);
+                switch (op) {
+                    case 0: torusPolynomialMultNaive(r.p, a.p, b.p); break;
+                    case 1: torusPolynomialMultKaratsuba(r.p, a.p, b.p); break;
+                    case 2: torusPolynomialAddMulRKaratsuba(r.p, a.p, b.p); break;
+                    case 3: torusPolynomialSubMulRKaratsuba(r.p, a.p, b.p); break;
+                    case 4: torusPolynomialMulByXai(r.p, ai, b.p); break;
+                    case 5: torusPolynomialAddMulZ(r.p, r0.p, pz, b.p); break;
+                }
+                runs[op]++;
+                if (memcmp(r.c(), want[op].data(), 4 * N)) bad[op]++;
+            }
+        });
+        for (auto &t: th) t.join();
+        for (int op = 0; op < 6; op++) { out.evaluations += runs[op];
+            if (bad[op]) out.viol(std::string("inexact:") + fn[op] + ":operands-shared-between-threads", J().s("fn", fn[op]).i("N", N).i("threads", T).u("wrong_results", bad[op].load()).u("calls", runs[op].load()).s("class_a", cls_name[cls])); }
+        out.evaluations++;
+        if (fnv1a(a.c(), 4 * N) != ha || fnv1a(b.c(), 4 * N) != hb) out.viol("inexact:shared-operand-left-modified", J().i("N", N).i("threads", T).b("int_operand_changed", fnv1a(a.c(), 4 * N) != ha).b("torus_operand_changed", fnv1a(b.c(), 4 * N) != hb));
+        char cell[96]; snprintf(cell, sizeof cell, "shared-operands:N=%d:T=%d:%s", N, T, cls_name[cls]); out.cell(cell, (uint64_t) T * iters);
+    }
+}
+
 int main(int argc, char **argv) {
     Args args(argc, argv);
     out.open(args.s("out", "-"));
@@ -232,6 +281,11 @@ int main(int argc, char **argv) {
     int maxN = args.i("maxN", 2048);
     int basisN = args.i("basisN", thorough ? 64 : 16);
     rng.reseed(seed * 1000003 + shard);
+    if (args.s("mode", "") == "shared") {
+        for (int N: {8, 16, 64, 256, 1024}) test_shared(N, args.i("threads", 4), args.i("iters", 300) / (N >= 1024 ? 4 : 1));
+        out.sample(J().s("mode", "shared").i("threads", args.i("threads", 4)).s("N", "8,16,64,256,1024"));
+        out.finish(); return 0;
+    }
     std::vector<std::function<void()>> items;
     for (int N = 1; N <= maxN; N *= 2) {
         int reps = thorough ? (N >= 1024 ? 2 : 6) : (N >= 1024 ? 1 : 2);
